@@ -66,6 +66,12 @@ var $callDeferred = (deferred, jsErr, fromPanic) => {
                     deferred = null;
                     continue;
                 }
+                if ($curGoroutine.exit && $curGoroutine.deferStack.length < $curGoroutine.exitFrames) {
+                    /* runtime.Goexit is unwinding this frame: continue in the caller's frame.
+                       Frames entered after Goexit was called (by deferred calls) return normally. */
+                    $curGoroutine.exitFrames = $curGoroutine.deferStack.length;
+                    throw null;
+                }
                 return;
             }
             var r = call[0].apply(call[2], call[1]);
